@@ -259,51 +259,78 @@ def P24(m, R):
     if blk is None:
         R.viol(f, f.node, 'topmost=False has no restart block: continuing settings would stay below the new ones', construct=cons)
     else:
+        from ..shapes import local_aliases, canon
+        al = local_aliases(f)
         problems = []
         acc = None
-        srcv = None
-        for s in blk.body:
-            if isinstance(s, ast.Assign) and isinstance(s.value, ast.List) and not s.value.elts:
-                acc = norm(s.targets[0])
-            if isinstance(s, ast.Assign) and call_name(s.value) == 'ansi_settings_at':
-                srcv = norm(s.targets[0])
-                if [norm(a) for a in s.value.args] != ['start']:
-                    problems.append('continuing settings are taken at %s, not at start' % [norm(a) for a in s.value.args])
-        lp = next((s for s in blk.body if isinstance(s, ast.For)), None)
-        if acc is None or lp is None or srcv is None or norm(lp.iter) != srcv:
+        filt = None       # the selection condition of the restart list
+        src_ok = None
+        # form 1: acc = []; for s in ansi_settings_at(start): if <cond>: acc.append(s)
+        for s_ in blk.body:
+            if isinstance(s_, ast.Assign) and isinstance(s_.value, ast.List) and not s_.value.elts:
+                acc = norm(s_.targets[0])
+        lp = next((s_ for s_ in blk.body if isinstance(s_, ast.For)), None)
+        if acc is not None and lp is not None:
+            it = subst(lp.iter, {k: v for k, v in al.items()})
+            srcs = {norm(x.targets[0]): x.value for x in blk.body if isinstance(x, ast.Assign) and call_name(x.value) == 'ansi_settings_at'}
+            itv = srcs.get(norm(lp.iter), lp.iter)
+            src_ok = call_name(itv) == 'ansi_settings_at' and [norm(a) for a in itv.args] == ['start']
+            g = lp.body[0] if len(lp.body) == 1 and isinstance(lp.body[0], ast.If) else None
+            if g is not None and any(call_name(x) == 'append' and norm(x.func.value) == acc for x in ast.walk(g) if isinstance(x, ast.Call)):
+                filt = (g.test, norm(lp.target))
+        else:
+            # form 2: acc = [s for s in ansi_settings_at(start) if <cond>]
+            for s_ in blk.body:
+                if isinstance(s_, ast.Assign) and isinstance(s_.value, ast.ListComp) and len(s_.value.generators) == 1:
+                    g0 = s_.value.generators[0]
+                    itv = g0.iter
+                    srcs = {norm(x.targets[0]): x.value for x in blk.body if isinstance(x, ast.Assign) and call_name(x.value) == 'ansi_settings_at'}
+                    itv = srcs.get(norm(itv), itv)
+                    if call_name(itv) == 'ansi_settings_at' and norm(s_.value.elt) == norm(g0.target) and len(g0.ifs) == 1:
+                        acc = norm(s_.targets[0])
+                        src_ok = [norm(a) for a in itv.args] == ['start']
+                        filt = (g0.ifs[0], norm(g0.target))
+        if acc is None or filt is None:
             R.undecided(f, blk, 'restart accumulation not recognised', construct=cons)
         else:
-            # filter: only "not one of the point's own starters" (by identity), nothing else
-            g = lp.body[0] if len(lp.body) == 1 and isinstance(lp.body[0], ast.If) else None
-            if g is None or not any(call_name(x) == 'append' and norm(x.func.value) == acc for x in ast.walk(g)):
-                problems.append('the continuing settings are not all collected')
-            else:
-                tnames = names_in(g.test)
-                t = norm(g.test)
-                if ('.%s' % ro.START) not in t or not (ro.IDFIND1 in t or ' in ' in t):
-                    problems.append('restart filter is %s, expected: not among the starters of this point' % short(g.test))
-                if isinstance(g.test, ast.BoolOp):
-                    problems.append('restart filter %s selects a subset of the continuing settings' % short(g.test))
-            use = next((s for s in blk.body if isinstance(s, ast.If) and norm(s.test) == acc), None)
-            stmts = use.body if use is not None else [s for s in blk.body if blk.body.index(s) > blk.body.index(lp)]
+            if not src_ok:
+                problems.append('continuing settings are not taken from ansi_settings_at(start)')
+            t = canon(filt[0], al)
+            want = '__class__.%s(%s, %s.%s[start].%s) < 0' % (ro.IDFIND1, filt[1], f.self_name, ro.TABLE, ro.START)
+            if isinstance(filt[0], ast.BoolOp):
+                problems.append('restart filter %s selects a subset of the continuing settings' % short(filt[0]))
+            elif t != want and not (('.%s' % ro.START) in t and ' not in ' in t):
+                t2 = re.sub(r'%s\._\w+\(start\)' % re.escape(f.self_name), '%s.%s[start]' % (f.self_name, ro.TABLE), t)
+                if t2 != want:
+                    problems.append('restart filter is %s, expected: not among the starters of this point (by identity)' % short(filt[0]))
+            use = next((s_ for s_ in blk.body if isinstance(s_, ast.If) and norm(s_.test) == acc), None)
+            stmts = use.body if use is not None else list(blk.body)
             stop_ok = False
             start_how = None
-            for s in stmts:
-                t = norm(s)
-                if isinstance(s, ast.Expr) and call_name(s.value) == 'insert_settings':
-                    a = [norm(x) for x in s.value.args]
-                    kw = {k.arg: norm(k.value) for k in s.value.keywords}
+            new_list = next((norm(n.targets[0]) for n in f.walk() if isinstance(n, ast.Assign) and call_name(n.value) == ro.SCRUB), None)
+            local_env = {}
+            for s_ in stmts:
+                if isinstance(s_, ast.Assign) and isinstance(s_.targets[0], ast.Name):
+                    local_env[s_.targets[0].id] = s_.value
+                if isinstance(s_, ast.Expr) and call_name(s_.value) == 'insert_settings':
+                    a = [norm(x) for x in s_.value.args]
+                    kw = {k.arg: norm(k.value) for k in s_.value.keywords}
                     if a[:2] == ['False', acc]:
                         stop_ok = True
                     elif a[:2] == ['True', acc]:
                         tm = a[2] if len(a) > 2 else kw.get('topmost', 'True')
                         start_how = 'append-on-top' if tm == 'True' else 'prepend-below-new'
-                elif isinstance(s, ast.Assign) and isinstance(s.targets[0], ast.Subscript) and norm(s.targets[0].value).endswith('.' + ro.START) and norm(s.value) == acc:
-                    sl = s.targets[0].slice
-                    if isinstance(sl, ast.Slice) and norm(sl.lower) == norm(sl.upper) and re.match(r'^len\(\w+\)$', norm(sl.lower)):
-                        start_how = 'slice-insert-above-new'
-                    else:
-                        start_how = 'slice ' + norm(sl)
+                elif isinstance(s_, ast.Assign) and isinstance(s_.targets[0], ast.Subscript) and canon(s_.targets[0].value, al).endswith('.' + ro.START) and norm(s_.value) == acc:
+                    sl = s_.targets[0].slice
+                    if isinstance(sl, ast.Slice):
+                        lo = norm(subst(sl.lower, local_env)) if sl.lower is not None else None
+                        hi = norm(subst(sl.upper, local_env)) if sl.upper is not None else None
+                        if lo == hi and lo == 'len(%s)' % new_list:
+                            start_how = 'slice-insert-above-new'
+                        else:
+                            start_how = 'slice %s:%s' % (lo, hi)
+                elif isinstance(s_, ast.Expr) and call_name(s_.value) == 'extend' and canon(s_.value.func.value, al).endswith('.' + ro.STOP) and norm(s_.value.args[0]) == acc:
+                    stop_ok = True
             if not stop_ok:
                 problems.append('the restarted settings are not stopped at this point first')
             if start_how == 'append-on-top':
@@ -311,8 +338,11 @@ def P24(m, R):
                                 'although those had precedence before')
             elif start_how == 'prepend-below-new':
                 problems.append('the restarted settings are inserted below the new settings, which then override them')
+            elif start_how is None:
+                problems.append('the continuing settings are stopped here but never restarted')
             elif start_how != 'slice-insert-above-new':
-                problems.append('restart into START not recognised (%s)' % start_how)
+                if start_how.startswith('slice'):
+                    problems.append('the restarted settings are inserted at %s, expected directly above the new settings (position len(new settings))' % start_how)
             R.check(not problems, f, blk, 'all continuing settings are stopped and re-inserted directly above the new ones, below this point\'s starters',
                     '; '.join(problems), construct=cons)
     # (b) remove_formatting at idx == end
